@@ -163,7 +163,50 @@ fn one(rng: &mut StdRng, k: usize) -> Item {
     Item { name: format!("gen{}-{}-{}{}", k, cpu, os, if corrupted { "-corrupt" } else { "" }), cpu: cpu.to_string(), dump, symbols, corrupted }
 }
 
+/// Crash analysis paths that need a particular constellation: many registers near a one-bit neighbour of the crash
+/// address (the bit-flip confidence table), and a /proc/maps row that covers the whole address space (guard-page sizes).
+fn analysis_items() -> Vec<Item> {
+    let mut v = vec![];
+    // (1) amd64 Windows read violation at an unmapped address one bit away from the stack region; every general-purpose
+    //     register points into that region
+    for nregs in [3usize, 5, 9, 14] {
+        let mut spec = DumpSpec { os: "windows".into(), cpu: "amd64".into(), ..DumpSpec::default() };
+        spec.threads.push(ThreadSpec { id: 1, ctx_ok: true, name: None, ip: 0x400150, sp: 0x10008, stack_base: 0x10000, stack: vec![0u8; 64] });
+        spec.modules = vec![ModuleSpec { base: 0x400000, size: 0x1000, name: "m1".into() }];
+        spec.memory_info = vec![RegionSpec { base: 0x10000, size: 0x8000, protection: 4, state: 0x1000 }, RegionSpec { base: 0x400000, size: 0x1000, protection: 0x20, state: 0x1000 }];
+        spec.extra_memory.push((0x400150, vec![0x8a, 0x03, 0x90, 0x90, 0x90, 0x90, 0x90, 0x90, 0x90, 0x90, 0x90, 0x90, 0x90, 0x90, 0x90, 0x90])); // mov al, [rbx]
+        let bad = 0x10010u64 | (1u64 << 36);
+        let mut info = [0u64; 15];
+        info[0] = 0;
+        info[1] = bad;
+        let offs = [120usize, 128, 136, 160, 168, 176, 184, 192, 200, 208, 216, 224, 232, 240];
+        let mut patch = vec![(144usize, bad)];
+        for (i, off) in offs.iter().enumerate().take(nregs) { patch.push((*off, 0x10010 + 8 * i as u64)); }
+        spec.exception = Some(ExcSpec { tid: 1, has_ctx: true, ctx_ok: true, ctx_ip: 0x400150, ctx_sp: 0x10008, code: 0xC000_0005, flags: 0, address: 0x400150, nparams: 2, info, ctx_patch: patch });
+        v.push(Item { name: format!("analysis-bitflip-{}regs", nregs), cpu: "amd64".into(), dump: build(&spec), symbols: HashMap::new(), corrupted: false });
+    }
+    // (2) Linux amd64 crash on a memory access, no memory-info stream, /proc/maps rows incl. one that spans everything
+    for maps in ["0-ffffffffffffffff rw-p 00000000 00:00 0\n", "00000000-ffffffffffffffff ---p 00000000 00:00 0 [everything]\n00010000-00018000 rw-p 00000000 00:00 0 [stack]\n",
+                 "ffffffffffff0000-ffffffffffffffff rw-p 00000000 00:00 0\n0-1000 ---p 00000000 00:00 0\n"] {
+        for op in [&[0x8au8, 0x04, 0x24][..], &[0xff, 0x04, 0x24], &[0x48, 0x8b, 0x00], &[0xff, 0x20]] {
+            let mut spec = DumpSpec { os: "linux".into(), cpu: "amd64".into(), ..DumpSpec::default() };
+            spec.threads.push(ThreadSpec { id: 1, ctx_ok: true, name: None, ip: 0x400150, sp: 0x10008, stack_base: 0x10000, stack: vec![0u8; 64] });
+            spec.modules = vec![ModuleSpec { base: 0x400000, size: 0x1000, name: "m1".into() }];
+            spec.linux_maps = Some(maps.to_string());
+            let mut bytes = op.to_vec();
+            bytes.resize(16, 0x90);
+            spec.extra_memory.push((0x400150, bytes));
+            spec.exception = Some(ExcSpec { tid: 1, has_ctx: true, ctx_ok: true, ctx_ip: 0x400150, ctx_sp: 0x10008, code: 11, flags: 1, address: 0x10008, nparams: 0, info: [0u64; 15],
+                                            ctx_patch: vec![(120usize, 0xffff_ffff_ffff_fff8)] }); // rax near the top of the address space
+            v.push(Item { name: format!("analysis-maps-{}-{:02x}", maps.len(), op[0]), cpu: "amd64".into(), dump: build(&spec), symbols: HashMap::new(), corrupted: false });
+        }
+    }
+    v
+}
+
 pub fn corpus(seed: u64, n: usize) -> Vec<Item> {
     let mut rng = StdRng::seed_from_u64(seed ^ 0xC0_4B05);
-    (0..n).map(|k| one(&mut rng, k)).collect()
+    let mut v: Vec<Item> = (0..n).map(|k| one(&mut rng, k)).collect();
+    v.extend(analysis_items());
+    v
 }
